@@ -73,6 +73,50 @@ fn cmd_check(id: &str, tier: Tier) -> i32 {
     }
     let known = load_known();
     let mut total = Stats::default();
+    // golden tier: the universes of the repository's own tests (vcore::golden), evaluated
+    // with this property's oracle; for C02 also compared with the outcomes those tests pin
+    let mut golden_run = 0u64;
+    if matches!(id, "C01" | "C02" | "C03" | "C04" | "C05" | "C06" | "C08" | "C10" | "C14") {
+        vcore::run::install_panic_hook();
+        if id == "C02" {
+            let bad = vcore::golden::self_check();
+            if !bad.is_empty() {
+                for b in &bad {
+                    println!("--- golden case disagrees with the outcome pinned by tests/solver.rs: {b}");
+                }
+                println!("VIOLATION property={id} replay={}", vcore::runner::verif_root().join("harness/vcore/src/golden.rs").display());
+                return 1;
+            }
+        }
+        if let Some(stage) = stages.iter().find(|s| match s.profile {
+            Profile::Release => !cfg!(debug_assertions),
+            Profile::Debug => cfg!(debug_assertions),
+        }) {
+            for g in vcore::golden::all() {
+                let rep = stage.prop.eval_struct(&g.case);
+                golden_run += 1;
+                total.evaluations += rep.evaluations.max(1);
+                if let Some(fl) = rep.failure {
+                    if match_known(&known, id, &fl.signature).is_none() {
+                        let v = ViolationRecord {
+                            property: id.to_string(),
+                            stage: stage.prop.stage().to_string(),
+                            signature: fl.signature.clone(),
+                            detail: format!("golden case {}: {}", g.name, fl.detail),
+                            description: stage.prop.describe_struct(&g.case),
+                            tape: vec![],
+                            case: Some(g.case.clone()),
+                            profile: profile_name().to_string(),
+                        };
+                        let path = write_replay(&v);
+                        println!("--- golden case {} ({}):\n{}", g.name, fl.signature, fl.detail);
+                        println!("VIOLATION property={id} replay={}", path.display());
+                        return 1;
+                    }
+                }
+            }
+        }
+    }
     // replay tier: saved regression cases of this property (fixed findings, seeded changes)
     let mut replayed = 0u64;
     let reg_dir = vcore::runner::verif_root().join("regressions");
@@ -255,7 +299,7 @@ fn cmd_check(id: &str, tier: Tier) -> i32 {
             "search-depth labels come from resolvo's tracing events and are used only to classify cases".into(),
             "absence of counterexamples among generated cases is not a proof".into(),
         ],
-        extra: serde_json::json!({ "stages": per_stage, "regression_cases_replayed": replayed }),
+        extra: serde_json::json!({ "stages": per_stage, "regression_cases_replayed": replayed, "golden_cases": golden_run }),
     };
     write_evidence(&meta, &total, start.elapsed().as_secs_f64());
     for (k, n) in &total.known {
@@ -627,6 +671,29 @@ fn main() {
         }
         Some("part") => cmd_part(&args[2], &args[3], args[4].parse().unwrap(), args[5].parse().unwrap()),
         Some("replay") => cmd_replay(&args[2]),
+        Some("golden") => {
+            // vrun golden [export-dir]: self-check against the outcomes pinned by tests/solver.rs,
+            // optionally export the cases as structured regression files
+            vcore::run::install_panic_hook();
+            let bad = vcore::golden::self_check();
+            for b in &bad {
+                println!("GOLDEN-MISMATCH {b}");
+            }
+            if let Some(dir) = args.get(2) {
+                for g in vcore::golden::all() {
+                    for id in ["C01", "C02", "C03", "C04", "C05", "C06", "C10"] {
+                        let stage = stages(id).into_iter().next().unwrap();
+                        let rec = serde_json::json!({
+                            "property": id, "stage": stage.prop.stage(), "signature": "golden", "detail": "golden case translated from tests/solver.rs",
+                            "tape": [], "case": g.case, "description": g.case.u.describe(&g.case.problem), "profile": "release",
+                        });
+                        std::fs::write(format!("{dir}/{id}-golden-{}.json", g.name), serde_json::to_string(&rec).unwrap()).unwrap();
+                    }
+                }
+            }
+            println!("golden cases: {} checked, {} mismatches", vcore::golden::all().len(), bad.len());
+            if bad.is_empty() { 0 } else { 1 }
+        }
         Some("tapes") => {
             // vrun tapes <n> <max_len> <seed>: n generated tapes, one per line (Miri tier input)
             use proptest::strategy::{Strategy, ValueTree};
